@@ -242,7 +242,9 @@ def _stmt(st, env):
             _block(st.body, env)
         except Raised as r:
             for h in st.handlers:
-                if h.type is None or A.src(h.type) in (r.name, "Exception", "BaseException"):
+                if _handler_matches(h, r.name):
+                    if h.name:
+                        env[h.name] = ModelObj("exception " + r.name, {"args": (r.name,), "errno": None})
                     _block(h.body, env)
                     break
             else:
@@ -253,6 +255,25 @@ def _stmt(st, env):
             _block(st.finalbody, env)
         return
     raise AnalysisError("miniinterp: unsupported statement `%s`" % A.norm(st)[:60])
+
+
+_EXC_PARENTS = {
+    "socket.timeout": ["TimeoutError", "socket.error", "OSError", "EnvironmentError", "IOError", "select_error"],
+    "TimeoutError": ["socket.timeout", "socket.error", "OSError", "EnvironmentError", "IOError"],
+    "socket.error": ["OSError", "EnvironmentError", "IOError"], "OSError": ["socket.error", "EnvironmentError", "IOError"],
+    "KeyError": ["LookupError"], "IndexError": ["LookupError"], "UnicodeDecodeError": ["ValueError"],
+    "UnicodeEncodeError": ["ValueError"], "ZeroDivisionError": ["ArithmeticError"], "EOFError": [],
+}
+
+
+def _handler_matches(h, name):
+    if h.type is None:
+        return True
+    types = h.type.elts if isinstance(h.type, ast.Tuple) else [h.type]
+    names = {A.src(t) for t in types}
+    if names & {"Exception", "BaseException", name}:
+        return name not in ("<nontermination>",)
+    return bool(names & set(_EXC_PARENTS.get(name, [])))
 
 
 def _as_load(t):
@@ -451,6 +472,22 @@ def _ev(e, env):
             raise AnalysisError("miniinterp: type() of a non-model value")
         if d == "isinstance" and len(e.args) == 2 and "__isinstance__" in env:
             return env["__isinstance__"](_ev(e.args[0], env), A.src(e.args[1]))
+        if d == "getattr" and len(e.args) in (2, 3) and isinstance(e.args[0], ast.Name) and env.get(e.args[0].id) == "__SELF__":
+            nm = _ev(e.args[1], env)
+            meths = env.get("__methods__", {})
+            if nm in meths:
+                extra = {k: env[k] for k in ("__calls__", "__values__", "__isinstance__", "__methods__", "__globals__",
+                                             "__global_lookup__", "__max_iter__") if k in env}
+                return (lambda node: lambda *a: call_method(node, env["__self__"], list(a), extra))(meths[nm])
+            if nm in env["__self__"]:
+                return env["__self__"][nm]
+            if len(e.args) == 3:
+                return _ev(e.args[2], env)
+            raise Raised("AttributeError")
+        if d == "isinstance" and len(e.args) == 2 and isinstance(e.args[1], ast.Name) and e.args[1].id in (
+                "str", "bytes", "int", "float", "tuple", "list", "dict", "bool", "set", "frozenset") and "__isinstance__" not in env:
+            import builtins as _b
+            return isinstance(_ev(e.args[0], env), getattr(_b, e.args[1].id))
         if d == "hasattr" and len(e.args) == 2:
             v, nm = _ev(e.args[0], env), _ev(e.args[1], env)
             if isinstance(v, ModelObj):
